@@ -248,3 +248,18 @@ META["C01"] = {
         "tolerance 64 (d+B) eps x magnitude of the integrand; lattice midpoints that are not dyadic are rounded to 2^-64",
     ],
 }
+
+META["C17"] = {
+    "level": "exploration",
+    "parts": 3,
+    "tiers": {
+        "quick": {"shards": 3, "deadline_s": 400,
+                  "bounds": "every sequence of 3 calls over the per-call alphabet {canonical number 0, 1/4, largest below 1 (multi-channel: coordinate in {0, largest} x channel draw in {0,1/4,largest})} x {integrand returns 0, 2, NaN} x {requests the weight itself, does not}: 18^3 (36^3) sequences; PLAIN, VEGAS uniform and grid [0,1/8,1/2,1], MULTI-CHANNEL with weights (1,1,1),(0,1,1),(1,0,1),(1,1,0),(0,0,1); 3 types; ASan+UBSan+_GLIBCXX_ASSERTIONS"},
+        "thorough": {"shards": 3, "deadline_s": 900, "bounds": "same as quick (the enumeration is complete at this bound)"},
+    },
+    "rule": "exhaustive enumeration of call sequences; the instrumented integrand and map record every invocation with arguments, buffer addresses and contents; the protocol is checked on the resulting event log; distinct = distinct (configuration, sequence); non-trivial = every sequence (each mixes at least the zero / non-zero / weight-request dimensions)",
+    "assumptions": [
+        "buffer identity is compared by address within one iteration only",
+        "sequences of 3 calls; one dimension",
+    ],
+}
